@@ -92,7 +92,6 @@ impl<'a> PropagationContextMut<'a> {
     { unimplemented!() }
 }
 
-pub struct PropagationContext<'a> { pub assignments: &'a Assignments }
 pub struct PropagatorInitialisationContext { pub x: u8 }
 pub struct LocalId { pub v: u32 }
 
